@@ -23,6 +23,23 @@ Theorem C07_filing_matches_source : forall k, gen_lecoc_keysel k = lecoc_keysel 
 Proof. intros []; reflexivity. Qed.
 Print Assumptions C07_filing_matches_source.
 
+(* the comparison operators and integer constants of LeCreditBasedChannel.__init__ / on_pdu /
+   process_output read from l2cap.py on this run (the translator matches the whole normalised
+   function bodies, also of write / on_credits / send_pdu, against a template and fails closed
+   on any other difference) are the ones of the model ... *)
+Theorem C07_shape_matches_source : gen_shape = model_shape.
+Proof. vm_compute. reflexivity. Qed.
+Print Assumptions C07_shape_matches_source.
+
+(* ... so the model's receiver and sender ARE the generic ones instantiated with what the
+   source says: `<=` against `max // 2`, `-= 1`, `>= 2`, `< 2 + length`, `!= 2 + length`,
+   `[2:]`, `while credits > 0`, `len(payload) < peer_mtu`, ... *)
+Theorem C07_model_is_source_shape :
+  (forall r pdu, r_on_pdu r pdu = r_on_pdu_g gen_shape r pdu) /\
+  (forall s, process_output s = process_output_g gen_shape s).
+Proof. exact (model_is_shape gen_shape C07_shape_matches_source). Qed.
+Print Assumptions C07_model_is_source_shape.
+
 Theorem C07_ranges_covered :
   params_ok gen_min_mtu gen_min_mps 1 /\ params_ok gen_max_mtu gen_max_mps gen_max_credits.
 Proof. split; constructor; vm_compute; intuition congruence. Qed.
@@ -142,6 +159,75 @@ Theorem C07_tables_route_credit : forall cs c n,
 Proof. intros cs c n. exact (route_credit_ok lecoc_keysel cs c n (fun _ => eq_refl)). Qed.
 Print Assumptions C07_tables_route_credit.
 
+(* ---- n channels on one link (two managers, each a list of channel endpoints, two shared
+   FIFO wires, packets routed by the tables): for every set of channels with pairwise distinct
+   CIDs on each side, every schedule and every channel k - whatever the other channels do -
+   nothing is dropped by the lookups, channel k's sink bytes are a prefix of its written bytes,
+   equal with drain() done as soon as none of ITS packets is in flight, its credit ledger
+   holds and its frames are within the MPS *)
+Theorem C07_multi_channel : forall cs, Forall cfg_ok cs ->
+  NoDup (map cc_cid_a cs) -> NoDup (map cc_cid_b cs) ->
+  forall ls k, Forall mlabel_ok ls -> (k < length cs)%nat ->
+    let c := nth k cs dflt_cfg in
+    let '(st, rs) := m_run (m_init cs) ls in
+    let pk := proj k st in
+    Forall (fun r => mr_dropped r = false) rs /\
+    (exists X, m_written_a k ls = m_sunk_b k rs ++ X) /\
+    (exists Y, m_written_b k ls = m_sunk_a k rs ++ Y) /\
+    (l_ab pk = [] -> l_ba pk = [] ->
+       m_written_a k ls = m_sunk_b k rs /\ m_written_b k ls = m_sunk_a k rs /\
+       s_drained (e_snd (l_a pk)) = true /\ s_drained (e_snd (l_b pk)) = true) /\
+    ledger (e_snd (l_a pk)) (e_rcv (l_b pk)) (l_ab pk) (l_ba pk) (cc_cr_b c) /\
+    ledger (e_snd (l_b pk)) (e_rcv (l_a pk)) (l_ba pk) (l_ab pk) (cc_cr_a c) /\
+    frames_within (cc_mps_b c) (l_ab pk) /\ frames_within (cc_mps_a c) (l_ba pk).
+Proof. exact multi_channel. Qed.
+Print Assumptions C07_multi_channel.
+
+(* the projection behind it: channel k of the n-channel run is a one-channel run *)
+Theorem C07_multi_channel_projection : forall ls st k,
+  mwf st -> (k < length (m_a st))%nat -> Forall mlabel_ok ls ->
+  let '(st', rs) := m_run st ls in
+  mwf st' /\ length (m_a st') = length (m_a st) /\ Forall (fun r => mr_dropped r = false) rs /\
+  exists ls', Forall label_ok ls' /\
+    let '(lst, lrs) := l_run (proj k st) ls' in
+    proj k st' = lst /\ written_a ls' = m_written_a k ls /\ written_b ls' = m_written_b k ls /\
+    sunk_a lrs = m_sunk_a k rs /\ sunk_b lrs = m_sunk_b k rs.
+Proof. exact m_run_proj. Qed.
+Print Assumptions C07_multi_channel_projection.
+
+(* ---- one Bumble endpoint against an arbitrary peer (hostile but legal) *)
+(* sender: for every sequence of non-empty writes and credit packets with any counts >= 0
+   (the code does not enforce the 65535 ceiling: an over-grant is simply added), the credit
+   balance stays >= 0, every frame ever emitted has 1..MPS bytes, the frames emitted so far
+   followed by the unsent rest of out_sdu are whole SDUs of 1..MTU bytes on frame boundaries,
+   and their payloads followed by out_queue are exactly the bytes written *)
+Theorem C07_sender_robust : forall vs s F W, sinv s F W -> Forall sev_ok vs ->
+  let '(s', fs) := s_run s vs in sinv s' (F ++ fs) (W ++ s_written vs).
+Proof. exact sender_robust. Qed.
+Print Assumptions C07_sender_robust.
+
+(* receiver: for every sequence of frames (any number, any content) peer_credits stays in
+   (max/2, max] - the "peer out of credits" branch of on_pdu is unreachable, a peer that
+   overdraws cannot be told apart - every credit packet returns 1..max credits and the
+   count is exact: credits out = credits out before - frames + credits returned *)
+Theorem C07_receiver_robust : forall fs r, rinv r ->
+  let '(r', cs) := r_run r fs in
+  rinv r' /\ Forall (fun n => 1 <= n <= r_max r) cs /\
+  r_credits r' = r_credits r - zlen fs + zsum cs.
+Proof. exact receiver_robust. Qed.
+Print Assumptions C07_receiver_robust.
+
+(* ---- the hypothesis "the receiver has a sink" is needed (on_pdu returns before the credit
+   accounting while sink is None) *)
+Theorem C07_nosink_leak_refuted :
+  let b0 := ep_init KDst 64 80 1 23 23 1 in
+  let f1 := enc_sdu (mk_data 0 5) in let f2 := enc_sdu (mk_data 5 5) in
+  let '(b, rs) := ep_run_s b0 [(false, ERecv (PFrame 64 f1)); (true, ERecv (PFrame 64 f2))] in
+  map (fun r => (er_out r, er_sink r)) rs = [([], None); ([PCredit 64 1], Some (mk_data 5 5))] /\
+  r_credits (e_rcv b) = 1.
+Proof. exact nosink_leak_refuted. Qed.
+Print Assumptions C07_nosink_leak_refuted.
+
 (* ---- D07 (fixed by fixes/D07.patch): with the enhanced acceptor filed under its
    source CID the statements above are false *)
 Theorem C07_d07_tables_refuted :
@@ -167,3 +253,14 @@ Example C07_run_nonvacuous :
                          [WriteA (mk_data 0 40); DeliverAB; DeliverAB; DeliverBA; DeliverAB; DeliverBA; DeliverAB; DeliverBA] in
   sunk_b rs = mk_data 0 40 /\ l_ab st = [] /\ l_ba st = [] /\ Forall label_ok [WriteA (mk_data 0 40)].
 Proof. vm_compute. repeat split. constructor; [discriminate|constructor]. Qed.
+
+Example C07_multi_nonvacuous :
+  let cs := [mkCfg LeInitiator LeAcceptor 64 65 23 23 1 64 23 2; mkCfg EnhAcceptor EnhInitiator 65 64 64 23 2 23 23 1] in
+  let '(st, rs) := m_run (m_init cs) [MWriteA 0 (mk_data 0 30); MWriteB 1 (mk_data 7 9); MDeliverAB; MDeliverBA;
+                                      MDeliverAB; MDeliverBA; MDeliverBA; MDeliverAB] in
+  m_sunk_b 0 rs = mk_data 0 30 /\ m_sunk_a 1 rs = mk_data 7 9 /\ m_ab st = [] /\ m_ba st = [] /\
+  NoDup (map cc_cid_a cs) /\ NoDup (map cc_cid_b cs).
+Proof. vm_compute. repeat split; repeat constructor; cbn; intuition discriminate. Qed.
+
+Example C07_sinv_satisfiable : sinv (snd_init 3 64 23) [] [] /\ rinv (rcv_init 3).
+Proof. split; [apply sinv_init|apply rinv_init]; vm_compute; intuition congruence. Qed.
